@@ -289,7 +289,58 @@ def judge(cmd, vec, labels, res):
     return ("violation" if viols else "served:" + ("file" if target else "stdout") + (":paranoia" if vec["paranoia"] else "")), viols
 
 
+HIST_VECS = [("from-master-xprv", {}), ("from-master-xprv", {"file": "out.json"}), ("from-mnemonic", {"file": "out.json"}),
+             ("from-master-xprv", {"account": "x", "file": "new2.json"}), ("from-master-xprv", {"paranoia": True}),
+             ("from-mnemonic", {"file": "other.json", "testnet": True})]
+
+
+def run_history(hist):
+    """several invocations of main() in ONE process and ONE directory; each is judged like a single run, with the file-target
+    label taken from the state the directory is in at that moment (an existing target must be refused and left alone)"""
+    import tempfile, shutil, os
+    d = tempfile.mkdtemp(prefix="vfclih.")
+    cli.prepare(d)
+    viols, oc = [], "init"
+    try:
+        for n, h in enumerate(hist):
+            cmd, over = HIST_VECS[h]
+            dims = dims_for(cmd)
+            vec = {m: dims[m][0][0] for m in dims}
+            labels = {m: dims[m][0][1] for m in dims}
+            for k_, v_ in over.items():
+                vec[k_] = v_
+                labels[k_] = next((lab for val, lab in dims[k_] if val == v_), G)
+            if vec["file"] is not None and os.path.lexists(os.path.join(d, vec["file"])):
+                labels["file"] = B
+            vec = {k_: (list(v_) if isinstance(v_, tuple) else v_) for k_, v_ in vec.items()}
+            res = cli.run_inprocess(build_argv(cmd, vec), workdir=d)
+            o, vs = judge(cmd, vec, labels, res)
+            if n == len(hist) - 1:
+                oc = o
+                for v in vs:
+                    v["key"] += ":history"
+                    v["msg"] = "after %d earlier invocation(s) %r in the same process and directory: %s" % (n, hist[:-1], v["msg"])
+                viols = vs
+    finally:
+        shutil.rmtree(d, ignore_errors=True)
+    return {"canon": hist, "viols": viols, "label": oc}
+
+
+class CliHistories:
+    def ops(self, hist):
+        return list(range(len(HIST_VECS)))
+
+    def run(self, hist):
+        return run_history(hist)
+
+
 def execute(case):
+    if "hist" in case:
+        from ..core import isolated
+        r = isolated(run_history, case["hist"])
+        for v in r["viols"]:
+            v["case"] = case
+        return R(r["label"], viols=r["viols"])
     cmd, vec, labels = case["cmd"], case["vec"], case["labels"]
     argv = build_argv(cmd, vec)
     ur = scripted_urandom if (cmd == "new" and vec["paranoia"]) else None
@@ -417,6 +468,9 @@ def run(ctx):
             c["subprocess"] = True
             nsub += 1
     agg = ctx.product("argv-deviation-ball", cases, execute, chunk=2)
+    from ..bfs import bfs, long_histories
+    bfs(ctx, "invocation-histories", CliHistories(), 3 if ctx.thorough else 2, chunk=2)
+    long_histories(ctx, "invocation-histories+long", CliHistories(), rotations=3, rounds=2)
     hist = ctx.layers["argv-deviation-ball"]["outcomes"]
     served = sum(v for k, v in hist.items() if k.startswith("served"))
     refused = sum(v for k, v in hist.items() if k.startswith("refused"))
